@@ -201,6 +201,8 @@ def cmd_check(prop, tier, seed):
     wall = time.time() - t0
     extra = dict(
         known_findings_reported=sorted(s for s in reported if core.known_entry(s, known)),
+        regression_plans_replayed=nreg,
+        regression_plans_violating_again=len(back),
         build_configs=sorted(set(t['config'] for t in totals)),
         determinism='every reported violation passed two gates: the same violation signature recurs when the plan is executed '
                     'twice more, each time in a new executor process, and again when the minimised plan file is replayed in a '
